@@ -599,6 +599,9 @@ class Models(object):
                 raise Unsupported("str.count() compared with non-constant")
             return self.count_eq(c, k)
         if sym.liftable(l) and sym.liftable(r):
+            st = self.str_eq_structural(l, r)
+            if st is not None:
+                return E.decide(st)
             return E.decide(sym.eq(l, r))
         if isinstance(l, (list, tuple)) and isinstance(r, (list, tuple)):
             if isinstance(l, list) != isinstance(r, list):
@@ -973,6 +976,51 @@ class Models(object):
         r = E.feasible(E.path.pc, timeout_ms=800, slice_for=sym.B(self.contains_lit(t, sep))) is False
         E.path.refs[key] = (t, r)
         return r
+
+    def str_eq_structural(self, l, r):
+        """concat-aware equality of two strings built from pieces: if some character c occurs only in literal pieces (every atomic
+        piece is c-free on this path), both sides split at c into the same number of segments that are pairwise equal"""
+        E = self.E
+        if not (isinstance(l, (str, SV)) and isinstance(r, (str, SV))):
+            return None
+        for v in (l, r):
+            if isinstance(v, SV) and not z3.is_app(z3.simplify(Val.s(v.t))):
+                return None
+            if isinstance(v, SV) and E.decide(sym.is_str(v)) is not True:
+                return None
+        pl = self.pieces(sym.sstr(l))
+        pr = self.pieces(sym.sstr(r))
+        if len(pl) <= 1 and len(pr) <= 1:
+            return None
+        cands = sorted(set(ch for p in pl + pr if isinstance(p, str) for ch in p))
+        for c in cands:
+            if not all(isinstance(p, str) or self.sepfree(p, c) for p in pl + pr):
+                continue
+
+            def segs(ps):
+                out, cur = [], []
+                for p in ps:
+                    if isinstance(p, str):
+                        parts = p.split(c)
+                        cur.append(parts[0])
+                        for extra in parts[1:]:
+                            out.append(cur)
+                            cur = [extra]
+                    else:
+                        cur.append(p)
+                out.append(cur)
+                return out
+            sl, sr = segs(pl), segs(pr)
+            if len(sl) != len(sr):
+                return False
+            if len(sl) == 1:
+                continue
+            fs = []
+            for a, b in zip(sl, sr):
+                ta, tb = self.join_pieces(a), self.join_pieces(b)
+                fs.append(sym.as_bool(ta == tb))
+            return sym.And(*fs)
+        return None
 
     def contains_lit(self, t, lit):
         """formula: string term t contains the literal `lit` -- as regular membership, distributed over the pieces
